@@ -131,7 +131,8 @@ char *vc_strchr(const char *str, int ch)
 __CPROVER_requires(C08_STRCHR_PRE(str))
 __CPROVER_requires(!C08_STRCHR_KF_REGION(ch))
 __CPROVER_assigns(g_strchr_end)
-__CPROVER_ensures(C08_STRCHR_POST(__CPROVER_return_value, str, ch));
+/* old(): a caller may assign the result to the very variable it passes (str = strchr(str, ch)) */
+__CPROVER_ensures(C08_STRCHR_POST(__CPROVER_return_value, __CPROVER_old(str), ch));
 
 /* ------------------------------------------------------------------ strcspn (ISO 7.24.5.3) */
 size_t g_strcspn_L;    /* in: witness, s[L] == 0 */
